@@ -3,6 +3,8 @@ import Driver.C12
 import Driver.C12Mon
 import Driver.C14
 import Driver.C14Mon
+import Driver.C15
+import Driver.C15Mon
 import Driver.C16
 import Driver.C16Lin
 import Driver.C16Mon
@@ -12,6 +14,8 @@ def suites : List (String × Driver.Suite) :=
   Driver.C12Mon.suites ++
   Driver.C14.suites ++
   Driver.C14Mon.suites ++
+  Driver.C15.suites ++
+  Driver.C15Mon.suites ++
   Driver.C16.suites ++
   Driver.C16Lin.suites ++
   Driver.C16Mon.suites
